@@ -16,7 +16,7 @@ class Instance:
     """one bounded harness: fn(ctx) -> list of (name, obligation) ; meta = bounds etc."""
 
     def __init__(self, name, fn, bounds=None, qtimeout=20000, max_paths=200000, known=None, group=None,
-                 expect_paths=1, context_free_first=False):
+                 expect_paths=1, context_free_first=False, selftest=False):
         self.name, self.fn = name, fn
         self.bounds = bounds or {}
         self.qtimeout = qtimeout
@@ -24,6 +24,7 @@ class Instance:
         self.group = group or name.split('/')[0]
         self.expect_paths = expect_paths
         self.context_free_first = context_free_first
+        self.selftest = selftest        # the concrete (replay-mode) run of this instance is itself a check: failing there is a harness error
 
 
 def _model_values(ctx, m):
